@@ -36,7 +36,6 @@ package mem
 //@   loop 2 invariant count("PostStore") == countnil0("store.Alerts).Set") && count("store.Alerts).Set") == countnil0("PreStore")
 //@   loop 2 invariant (forall k int :: (k in visited) ==> (k in a.listeners)) && rangeindex1 + 1 < len(alerts) && count("store.Alerts).Get") == rangeindex1 + 2
 //@   noeffect store.Alerts).Get store.Alerts).Set Alert).Merge PreStore PostStore RecordEvent Inject EnableAlertNamesInMetrics
-//@   nosafe
 
 // ---- C02 / C13: alert garbage collection tells the callback (the silencer's cache eviction, the marker) about
 // exactly the collected alerts: PostDelete once per collected alert, then PostGC with their fingerprints, in order.
